@@ -145,7 +145,8 @@ def _model(case):
             A = A.astype(int)
     else:
         A = np.array(case["A"], dtype=float if case.get("dtype") == "float" else int)
-    return A
+    from props.gcommon import relayout
+    return relayout(A)
 
 
 def _call_dicts(call, p):
